@@ -446,18 +446,41 @@ class ConvArith:
             return "down %d %d %d %d %d %d" % (self.sf, self.st, a, ln, size, bt)
         return "up %d %d %d %d %d" % (self.st - self.sf, a, ln, size, bt)        # 'same' = ratio 2^0
 
-    def impl(self, req, channel="aw"):
-        n = self.n
-        f = getattr(self.axi_from, channel)
-        t = getattr(self.axi_to, channel)
+    @staticmethod
+    def garbage(req):
+        """Default payload for the idle channel: differs from `req` in every field."""
         a, ln, size, bt = req
-        n.set(f.valid, 1)
+        return (a ^ 0x5a5a5a5a5a, (ln ^ 0xa5) & 0xff, (size + 3) % 8, (bt + 1) % 4)
+
+    def _drive(self, ch, req, valid):
+        n = self.n
+        f = getattr(self.axi_from, ch)
+        a, ln, size, bt = req
+        n.set(f.valid, valid)
         n.set(f.addr, a)
         n.set(f.len, ln)
         n.set(f.size, size)
         n.set(f.burst, bt)
-        n.settle()
+
+    def _read(self, ch):
+        n = self.n
+        t = getattr(self.axi_to, ch)
         return (n.getu(t.addr), n.getu(t.len), n.getu(t.size), n.getu(t.burst))
+
+    def impl(self, req, channel="aw", other=None):
+        """Translate `req` on `channel` while the OTHER address channel is idle (valid = 0) with independent garbage
+        on its payload lines (`other`, default: a payload differing in every field)."""
+        self._drive(channel, req, 1)
+        self._drive("ar" if channel == "aw" else "aw", tuple(other) if other is not None else self.garbage(req), 0)
+        self.n.settle()
+        return self._read(channel)
+
+    def impl2(self, req_aw, req_ar):
+        """A write and a read request presented concurrently (both valid), different payloads."""
+        self._drive("aw", req_aw, 1)
+        self._drive("ar", req_ar, 1)
+        self.n.settle()
+        return self._read("aw"), self._read("ar")
 
     def passthrough(self, rng):
         """Ports the converters only connect through: AW/AR valid/ready and side-band fields, the B channel, and
@@ -568,10 +591,30 @@ def conv_run(ca, lean, cov, seed, tier):
     dis = []
     nsup = 0
     ofail = None
+    grng = random.Random(seed * 17 + 5)
+    wants = [tuple(int(w) for w in line.split()) for line in ans]
     for k, (r, line) in enumerate(zip(reqs, ans)):
         ch = "aw" if k % 2 == 0 else "ar"
-        got = ca.impl(r, ch)
-        want = tuple(int(w) for w in line.split())
+        # the idle channel carries independent garbage (valid = 0): another request of the list or random fields
+        other = reqs[grng.randrange(len(reqs))] if grng.random() < 0.5 else (
+            grng.getrandbits(ca.aw), grng.getrandbits(8), grng.getrandbits(3), grng.getrandbits(2))
+        got = ca.impl(r, ch, other)
+        want = wants[k]
+        if k % 3 == 0 and ofail is None and len(dis) < 3:
+            # read and write presented concurrently with different payloads: both translations must be right
+            k2 = grng.randrange(len(reqs))
+            pair = (r, reqs[k2]) if ch == "aw" else (reqs[k2], r)
+            wpair = (want, wants[k2]) if ch == "aw" else (wants[k2], want)
+            gpair = ca.impl2(*pair)
+            for c2, rq, g, w, orq in (("aw", pair[0], gpair[0], wpair[0], pair[1]), ("ar", pair[1], gpair[1], wpair[1], pair[0])):
+                if g != w and len(dis) < 3:
+                    dis.append({"instance": ca.name, "kind": "conv-arith", "channel": c2, "request": list(rq),
+                                "other": list(orq), "concurrent": True, "impl": list(g), "model": list(w)})
+                m = ca.oracle(rq, g) if ca.supported(rq) else None
+                if m and ofail is None:
+                    ofail = {"instance": ca.name, "kind": "monitor:" + m, "channel": c2, "request": list(rq),
+                             "other": list(orq), "concurrent": True, "forwarded": list(g), "monitor": m}
+            got = ca.impl(r, ch, other)
         dom = ca.supported(r)
         if dom:
             nsup += 1
@@ -579,14 +622,14 @@ def conv_run(ca, lean, cov, seed, tier):
             m = ca.oracle(r, got)
             if m and ofail is None:
                 ofail = {"instance": ca.name, "kind": "monitor:" + m, "channel": ch, "request": list(r),
-                         "forwarded": list(got), "monitor": m}
+                         "other": list(other), "forwarded": list(got), "monitor": m}
         if k % 16 == 0 and ofail is None:
             m = ca.passthrough(rng)
             if m:
                 ofail = {"instance": ca.name, "kind": "monitor:" + m, "passthrough": True, "monitor": m}
         if got != want and len(dis) < 3:
             dis.append({"instance": ca.name, "kind": "conv-arith", "channel": ch, "request": list(r),
-                        "impl": list(got), "model": list(want)})
+                        "other": list(other), "impl": list(got), "model": list(want)})
     if ofail:
         dis.append(ofail)
     cov.add_cases(ca.name, len(reqs), nsup, exhaustive=False)
@@ -880,6 +923,12 @@ class ConvE2E:
                 if ln < 48 and rng.random() < 0.5:
                     return (a, ln, size, bt)
 
+    def _garbage(self, ch, rng):
+        n = self.n
+        n.set(ch.valid, 0)
+        n.set(ch.addr, rng.getrandbits(self.aw)); n.set(ch.len, rng.getrandbits(8))
+        n.set(ch.size, rng.getrandbits(3)); n.set(ch.burst, rng.getrandbits(2))
+
     def legal_strb(self, req, k, strb):
         """Strobes a master may raise on beat k: only the byte lanes of that transfer."""
         a, ln, size, bt = req
@@ -917,6 +966,9 @@ class ConvE2E:
             wv = int(i < len(wbeats) and rng.random() < 0.8)
             n.set(f.aw.valid, int(not aw_sent)); n.set(f.aw.addr, a); n.set(f.aw.len, ln); n.set(f.aw.size, size)
             n.set(f.aw.burst, bt)
+            if aw_sent:                                   # idle AW after its handshake: garbage on the payload lines
+                self._garbage(f.aw, rng)
+            self._garbage(f.ar, rng)                      # the read address channel is idle throughout: garbage
             n.set(f.w.valid, wv)
             if i < len(wbeats):
                 n.set(f.w.data, wbeats[i][0]); n.set(f.w.strb, wbeats[i][1]); n.set(f.w.last, int(i == len(wbeats) - 1))
@@ -966,6 +1018,10 @@ class ConvE2E:
         for cyc in range(60 * (ln + 4) * max(1, self.dw_from // self.dw_to)):
             n.set(f.ar.valid, int(not ar_sent)); n.set(f.ar.addr, a); n.set(f.ar.len, ln); n.set(f.ar.size, size)
             n.set(f.ar.burst, bt)
+            if ar_sent:
+                self._garbage(f.ar, rng)
+            self._garbage(f.aw, rng)                      # idle write channels: garbage with valid = 0
+            n.set(f.w.valid, 0); n.set(f.w.data, rng.getrandbits(self.dw_from)); n.set(f.w.strb, rng.getrandbits(self.dw_from // 8))
             n.set(t.ar.ready, int(rng.random() < 0.6))
             rv = int(got_ar is not None and len(sl_beats) <= got_ar[1] and rng.random() < 0.7)
             if rv and sl_next is None:
